@@ -460,7 +460,249 @@ Proof.
   unfold incr. change (is_valid_week_pattern P) with (is_valid_week_pattern CV.P). rewrite CV.week_P. cbn [negb].
   rewrite (cvt_parse_eq today y m bid t Hy Hm Hd Hne). cbv zeta.
   rewrite Hpd, Htn. cbn [andb].
-  destruct (is_cal_gt _ _).
-  - rewrite (incr_numeric_cvt_overflow _ _ fl ft Hfl Hb). reflexivity.
-  - rewrite (incr_numeric_cvt_overflow _ _ fl ft Hfl); [reflexivity|exact Hb].
+  set (old := cvt_vinfo (Z.of_N y) (Z.of_N m) bid t).
+  destruct (is_cal_gt (cal_list old) (cinfo_of_ord date)).
+  - rewrite (incr_numeric_cvt_overflow old old fl ft Hfl Hb). reflexivity.
+  - rewrite (incr_numeric_cvt_overflow old (set_cal old (cinfo_of_ord date)) fl ft Hfl Hb). reflexivity.
 Qed.
+
+(* ------------------------------------------------------------------ (4) the new version is greater, whatever the tags *)
+(* the next version always has the shape of such a string again, with year and month in range *)
+Lemma cvt_next_shape y m b' t' date : 1000 <= y <= 9999 -> 1 <= m <= 12 -> (0 <= date <= MAX_ORD)%Z ->
+  exists y' m', cvt_next y m b' t' date = cvt y' m' b' t' /\ 1000 <= y' <= 9999 /\ 1 <= m' <= 12
+                /\ y * 100 + m <= y' * 100 + m'
+                /\ (y' = y /\ m' = m \/ y' = Z.to_N (year_y (cal_of date)) /\ m' = Z.to_N (month (cal_of date))).
+Proof.
+  intros Hy Hm Hdate. unfold cvt_next. cbv zeta.
+  destruct (CV.old_in_future y m (cal_of date)) eqn:E.
+  - exists y, m. repeat split; lia.
+  - pose proof (CV.month_range date) as HM. pose proof (CV.year_max date Hdate) as HY.
+    destruct (CV.not_future_ge y m (cal_of date) E HM ltac:(lia)) as [G1 G2].
+    exists (Z.to_N (year_y (cal_of date))), (Z.to_N (month (cal_of date))). repeat split; lia.
+Qed.
+
+(* BUILD always grows and the calendar part never goes back, so the release tuple (YYYYMM, BUILD) grows: the new
+   version is strictly greater under PEP 440 for EVERY pair of old and new tag, tag downgrades included *)
+Theorem cvt_result_greater : forall date y m bid b' t t',
+  1 <= m <= 12 -> all_digits bid = true -> bid <> [] -> bump_bid bid = Some b' ->
+  ver_lt (cvt y m bid t) (cvt_next y m b' t' date) = true.
+Proof.
+  intros date y m bid b' t t' Hm Hd Hne Hb.
+  destruct (CV.bumped_bid_facts bid b' Hd Hne Hb) as (Hlt & Hd' & Hne').
+  assert (L2 : N.compare (undec bid) (undec b') = Lt) by (apply N.compare_lt_iff; exact Hlt).
+  unfold cvt_next. cbv zeta.
+  destruct (CV.old_in_future y m (cal_of date)) eqn:E.
+  - apply ver_lt_cvt_release; try assumption; try lia.
+    cbn [cmp_list]. rewrite N.compare_refl, L2. reflexivity.
+  - pose proof (CV.month_range date) as HM.
+    destruct (CV.not_future_ge y m (cal_of date) E HM ltac:(lia)) as [_ G2].
+    apply ver_lt_cvt_release; try assumption; try lia.
+    cbn [cmp_list].
+    destruct (N.compare_spec (y * 100 + m) (Z.to_N (year_y (cal_of date)) * 100 + Z.to_N (month (cal_of date))))
+      as [_|_|G]; [rewrite L2; reflexivity|reflexivity|exfalso; lia].
+Qed.
+
+(* in particular the downgrades that the SemVer gate refuses are accepted here; spelled out for same month *)
+Corollary cvt_tag_downgrade_greater : forall y m bid b',
+  1 <= m <= 12 -> all_digits bid = true -> bid <> [] -> bump_bid bid = Some b' ->
+  ver_lt (cvt y m bid (Some PE.Lrc)) (cvt y m b' (Some PE.Lalpha)) = true
+  /\ ver_lt (cvt y m bid None) (cvt y m b' (Some PE.Ldev)) = true
+  /\ ver_lt (cvt y m bid (Some PE.Lpost)) (cvt y m b' (Some PE.Ldev)) = true
+  /\ ver_lt (cvt y m bid (Some PE.Lbeta)) (cvt y m b' (Some PE.Lbeta)) = true.
+Proof.
+  intros y m bid b' Hm Hd Hne Hb.
+  destruct (CV.bumped_bid_facts bid b' Hd Hne Hb) as (Hlt & Hd' & Hne').
+  assert (L2 : N.compare (undec bid) (undec b') = Lt) by (apply N.compare_lt_iff; exact Hlt).
+  repeat split; (apply ver_lt_cvt_release; try assumption; try lia; cbn [cmp_list]; rewrite N.compare_refl, L2; reflexivity).
+Qed.
+
+(* the PEP 440 form that the command prints next to the new version *)
+Theorem cvt_next_pep440 : forall date y m bid b' t',
+  1000 <= y <= 9999 -> 1 <= m <= 12 -> all_digits bid = true -> bid <> [] -> bump_bid bid = Some b' ->
+  to_pep440 (cvt_next y m b' t' date) =
+  (let c := cal_of date in
+   if CV.old_in_future y m c then pep_text y m b' t'
+   else pep_text (Z.to_N (year_y c)) (Z.to_N (month c)) b' t').
+Proof.
+  intros date y m bid b' t' Hy Hm Hd Hne Hb.
+  destruct (CV.bumped_bid_facts bid b' Hd Hne Hb) as (_ & Hd' & Hne').
+  pose proof (CV.month_range date) as HM.
+  unfold cvt_next. cbv zeta. destruct (CV.old_in_future y m (cal_of date));
+    apply to_pep440_cvt; (assumption || lia).
+Qed.
+
+(* ------------------------------------------------------------------ (4) the command *)
+Lemma validate_flags_P fl ft : tag_flags fl ft -> validate_flags P fl = true.
+Proof.
+  intros (Hma & Hmi & Hpa & _). unfold validate_flags.
+  change (has_brace_l P) with false. rewrite Hma, Hmi, Hpa. reflexivity.
+Qed.
+
+Local Opaque version_key ver_le ver_lt to_pep440 incr.
+
+(* the gate of cli.test accepts the result, for every tag of the old version and every --tag *)
+Lemma gate_ok today date y m bid b' t t' :
+  1000 <= y <= 9999 -> 1 <= m <= 12 -> all_digits bid = true -> bid <> [] ->
+  (0 <= date <= MAX_ORD)%Z -> bump_bid bid = Some b' ->
+  is_valid_version_v2 today P (cvt y m bid t) (cvt_next y m b' t' date) = GateOk.
+Proof.
+  intros Hy Hm Hd Hne Hdate Hb.
+  destruct (CV.bumped_bid_facts bid b' Hd Hne Hb) as (_ & Hd' & Hne').
+  pose proof (cvt_result_greater date y m bid b' t t' Hm Hd Hne Hb) as Hlt.
+  unfold is_valid_version_v2.
+  rewrite ver_lt_iff_not_le in Hlt. apply negb_true_iff in Hlt. rewrite Hlt.
+  destruct (cvt_next_shape y m b' t' date Hy Hm Hdate) as (y' & m' & En & Hy' & Hm' & _).
+  rewrite En, (cvt_parse_eq today y' m' b' t' Hy' Hm' Hd' Hne'). reflexivity.
+Qed.
+
+Theorem cvt_test_cmd : forall today date fl ft y m bid b' t,
+  1000 <= y <= 9999 -> 1 <= m <= 12 -> all_digits bid = true -> bid <> [] ->
+  (0 <= date <= MAX_ORD)%Z -> tag_flags fl ft -> bump_bid bid = Some b' ->
+  let new := cvt_next y m b' (next_tag ft t) date in
+  test_cmd_v2 today (cvt y m bid t) P fl (Some (Some date)) None = Exit0 new (to_pep440 new)
+  /\ ver_lt (cvt y m bid t) new = true.
+Proof.
+  intros today date fl ft y m bid b' t Hy Hm Hd Hne Hdate Hfl Hb new.
+  split; [|exact (cvt_result_greater date y m bid b' t (next_tag ft t) ltac:(lia) Hd Hne Hb)].
+  pose proof Hfl as (_ & _ & _ & Ht & Htn & Hpd).
+  pose proof (cvt_incr today date fl ft y m bid b' t Hy Hm Hd Hne Hfl Hb) as Hin.
+  pose proof (gate_ok today date y m bid b' t (next_tag ft t) Hy Hm Hd Hne Hdate Hb) as Hg.
+  unfold test_cmd_v2. rewrite Ht, ST.validate_tag_ok. cbn [negb].
+  rewrite (validate_flags_P fl ft Hfl). cbn [negb]. rewrite Hpd. cbn [andb].
+  rewrite Hin, Hg. reflexivity.
+Qed.
+
+(* without --date the date is TODAY *)
+Corollary cvt_test_cmd_today : forall today fl ft y m bid b' t,
+  1000 <= y <= 9999 -> 1 <= m <= 12 -> all_digits bid = true -> bid <> [] ->
+  (0 <= today <= MAX_ORD)%Z -> tag_flags fl ft -> bump_bid bid = Some b' ->
+  let new := cvt_next y m b' (next_tag ft t) today in
+  test_cmd_v2 today (cvt y m bid t) P fl None None = Exit0 new (to_pep440 new).
+Proof.
+  intros today fl ft y m bid b' t Hy Hm Hd Hne Hdate Hfl Hb new.
+  pose proof Hfl as (_ & _ & _ & Ht & Htn & Hpd).
+  pose proof (cvt_incr today today fl ft y m bid b' t Hy Hm Hd Hne Hfl Hb) as Hin.
+  pose proof (gate_ok today today y m bid b' t (next_tag ft t) Hy Hm Hd Hne Hdate Hb) as Hg.
+  unfold test_cmd_v2. rewrite Ht, ST.validate_tag_ok. cbn [negb].
+  rewrite (validate_flags_P fl ft Hfl). cbn [negb andb].
+  rewrite Hin, Hg. reflexivity.
+Qed.
+
+(* the only way the command fails inside this family: the build number cannot be bumped (all nines) *)
+Theorem cvt_test_cmd_overflow : forall today date fl ft y m bid t,
+  1000 <= y <= 9999 -> 1 <= m <= 12 -> all_digits bid = true -> bid <> [] ->
+  tag_flags fl ft -> bump_bid bid = None ->
+  test_cmd_v2 today (cvt y m bid t) P fl (Some (Some date)) None = ExitErr.
+Proof.
+  intros today date fl ft y m bid t Hy Hm Hd Hne Hfl Hb.
+  pose proof Hfl as (_ & _ & _ & Ht & Htn & Hpd).
+  unfold test_cmd_v2. rewrite Ht, ST.validate_tag_ok. cbn [negb].
+  rewrite (validate_flags_P fl ft Hfl). cbn [negb]. rewrite Hpd. cbn [andb].
+  rewrite (cvt_incr_overflow today date fl ft y m bid t Hy Hm Hd Hne Hfl Hb). reflexivity.
+Qed.
+
+(* every value cli._validate_release_tag lets through is one of the six names: the abstraction ft loses nothing *)
+Theorem tag_flags_complete : forall fl,
+  f_major fl = false -> f_minor fl = false -> f_patch fl = false -> f_tag_num fl = false -> f_pin_date fl = false ->
+  validate_release_tag (f_tag fl) = true -> exists ft, tag_flags fl ft.
+Proof.
+  intros fl H1 H2 H3 H4 H5 H6. destruct (ST.valid_tag_abstract fl H6) as [ft Hft].
+  exists ft. repeat split; assumption.
+Qed.
+Theorem invalid_tag_rejected : forall today old fl d sv, validate_release_tag (f_tag fl) = false ->
+  test_cmd_v2 today old P fl d sv = ExitErr.
+Proof. intros today old fl d sv H. unfold test_cmd_v2. rewrite H. reflexivity. Qed.
+
+(* ------------------------------------------------------------------ the whole statement in one piece *)
+Theorem calver_tag_e2e : forall today date fl ft y m bid b' t,
+  1000 <= y <= 9999 -> 1 <= m <= 12 -> all_digits bid = true -> bid <> [] ->
+  (0 <= date <= MAX_ORD)%Z -> tag_flags fl ft -> bump_bid bid = Some b' ->
+  let t' := next_tag ft t in
+  let new := cvt_next y m b' t' date in
+  parse_version_info today (cvt y m bid t) P = POk (cvt_vinfo (Z.of_N y) (Z.of_N m) bid t)
+  /\ format_version (cvt_vinfo (Z.of_N y) (Z.of_N m) bid t) P = Some (cvt y m bid t)
+  /\ incr today (cvt y m bid t) P fl date = INew new
+  /\ test_cmd_v2 today (cvt y m bid t) P fl (Some (Some date)) None = Exit0 new (to_pep440 new)
+  /\ ver_lt (cvt y m bid t) new = true
+  /\ undec bid < undec b' /\ all_digits b' = true
+  /\ exists y' m', new = cvt y' m' b' t' /\ 1000 <= y' <= 9999 /\ 1 <= m' <= 12 /\ y * 100 + m <= y' * 100 + m'
+       /\ (y' = y /\ m' = m \/ y' = Z.to_N (year_y (cal_of date)) /\ m' = Z.to_N (month (cal_of date)))
+       /\ to_pep440 new = pep_text y' m' b' t'.
+Proof.
+  intros today date fl ft y m bid b' t Hy Hm Hd Hne Hdate Hfl Hb t' new.
+  destruct (CV.bumped_bid_facts bid b' Hd Hne Hb) as (Hlt & Hd' & Hne').
+  destruct (cvt_test_cmd today date fl ft y m bid b' t Hy Hm Hd Hne Hdate Hfl Hb) as [Hc Hg].
+  split; [exact (cvt_parse_eq today y m bid t Hy Hm Hd Hne)|].
+  split; [exact (cvt_format y m bid t Hd)|].
+  split; [exact (cvt_incr today date fl ft y m bid b' t Hy Hm Hd Hne Hfl Hb)|].
+  split; [exact Hc|]. split; [exact Hg|]. split; [exact Hlt|]. split; [exact Hd'|].
+  destruct (cvt_next_shape y m b' t' date Hy Hm Hdate) as (y' & m' & En & Hy' & Hm' & Hge & Hcase).
+  exists y', m'. split; [exact En|]. split; [exact Hy'|]. split; [exact Hm'|]. split; [exact Hge|]. split; [exact Hcase|].
+  unfold new. rewrite En. apply to_pep440_cvt; (assumption || lia).
+Qed.
+
+(* the flag families of the task, spelled out *)
+(* no flag: the tag is carried over *)
+Corollary cvt_cmd_noflag : forall today date fl y m bid b' t,
+  1000 <= y <= 9999 -> 1 <= m <= 12 -> all_digits bid = true -> bid <> [] ->
+  (0 <= date <= MAX_ORD)%Z -> tag_flags fl None -> bump_bid bid = Some b' ->
+  let new := cvt_next y m b' t date in
+  test_cmd_v2 today (cvt y m bid t) P fl (Some (Some date)) None = Exit0 new (to_pep440 new)
+  /\ ver_lt (cvt y m bid t) new = true.
+Proof. intros. exact (cvt_test_cmd today date fl None y m bid b' t H H0 H1 H2 H3 H4 H5). Qed.
+
+(* --tag T, T any of alpha beta dev rc post final: the new tag is T whatever the old one was (upgrade, same tag, downgrade) *)
+Corollary cvt_cmd_tag : forall today date fl T y m bid b' t,
+  1000 <= y <= 9999 -> 1 <= m <= 12 -> all_digits bid = true -> bid <> [] ->
+  (0 <= date <= MAX_ORD)%Z -> tag_flags fl (Some T) -> bump_bid bid = Some b' ->
+  let new := cvt_next y m b' (of_flag T) date in
+  test_cmd_v2 today (cvt y m bid t) P fl (Some (Some date)) None = Exit0 new (to_pep440 new)
+  /\ ver_lt (cvt y m bid t) new = true.
+Proof. intros. exact (cvt_test_cmd today date fl (Some T) y m bid b' t H H0 H1 H2 H3 H4 H5). Qed.
+
+(* the final (untagged) case without flags is the theorem of Proofs/CalverE2E.v *)
+Lemma cvt_next_final y m b' date : cvt_next y m b' None date = CV.calver_next y m b' date.
+Proof. rewrite cvt_next_cv. apply app_nil_r. Qed.
+
+(* ------------------------------------------------------------------ the closed form against the model, on samples *)
+(* v202401.1001-beta and v202401.1001, flags: none, --tag rc, --tag final, --tag alpha (a downgrade), --tag beta (same tag),
+   --tag dev, --tag post; dates 2024-01 (same month), 2024-03 (later), 2023-10 (the old version lies in the future):
+   the model run by vm_compute gives the closed form, and the new version is greater *)
+Definition sample_fts : list (option (option ST.ptag)) :=
+  [None; Some (Some ST.Prc); Some None; Some (Some ST.Pa); Some (Some ST.Pb); Some (Some ST.Pdev); Some (Some ST.Ppost)].
+Definition sample_flags (ft : option (option ST.ptag)) : flags :=
+  mkflags false false false (option_map ST.ltext ft) false false false.
+Example cvt_samples_cmd :
+  forallb (fun t => forallb (fun ft => forallb (fun d =>
+    let old := cvt 2024 1 [49;48;48;49] t in
+    let new := cvt_next 2024 1 [49;48;48;50] (next_tag ft t) d in
+    eqb_cli_res (test_cmd_v2 738000 old P (sample_flags ft) (Some (Some d)) None) (Exit0 new (to_pep440 new))
+    && ver_lt old new)
+    [738900; 738950; 738800]%Z) sample_fts) [Some PE.Lbeta; None; Some PE.Lpost; Some PE.Lpreview] = true
+  /\ cvt_next 2024 1 [49;48;48;50] (Some PE.Lalpha) 738950 = [118;50;48;50;52;48;51;46;49;48;48;50;45;97;108;112;104;97]  (* v202403.1002-alpha *)
+  /\ cvt_next 2024 1 [49;48;48;50] None 738800 = [118;50;48;50;52;48;49;46;49;48;48;50]                                  (* v202401.1002 *)
+  /\ to_pep440 (cvt_next 2024 1 [49;48;48;50] (Some PE.Ldev) 738900) = [50;48;50;52;48;49;46;49;48;48;50;46;100;101;118;48]. (* 202401.1002.dev0 *)
+Proof. vm_compute. repeat split; reflexivity. Qed.
+
+Print Assumptions cvt_parse_eq.
+Print Assumptions cvt_samples_cmd.
+Print Assumptions cvt_parse.
+Print Assumptions cvt_format_gen.
+Print Assumptions cvt_format.
+Print Assumptions cvt_roundtrip.
+Print Assumptions parse_cvt.
+Print Assumptions to_pep440_cvt.
+Print Assumptions ver_lt_cvt_release.
+Print Assumptions cvt_incr.
+Print Assumptions cvt_incr_overflow.
+Print Assumptions cvt_result_greater.
+Print Assumptions cvt_tag_downgrade_greater.
+Print Assumptions cvt_next_pep440.
+Print Assumptions cvt_test_cmd.
+Print Assumptions cvt_test_cmd_today.
+Print Assumptions cvt_test_cmd_overflow.
+Print Assumptions tag_flags_complete.
+Print Assumptions invalid_tag_rejected.
+Print Assumptions calver_tag_e2e.
+Print Assumptions cvt_cmd_noflag.
+Print Assumptions cvt_cmd_tag.
